@@ -168,6 +168,10 @@ func genC14(g *Gen) error {
 	if err := c14IxDefs(g, t); err != nil {
 		return err
 	}
+	// the command path of ALTER RETENTION POLICY (c14cmd.go)
+	if err := c14CmdDefs(g); err != nil {
+		return err
+	}
 	// shared-storage retention decided by the catalogue (c14sh.go)
 	if err := c14SharedDefs(g, t); err != nil {
 		return err
@@ -244,6 +248,9 @@ func genC14(g *Gen) error {
 		return err
 	}
 	if err := c14SharedShapes(g); err != nil {
+		return err
+	}
+	if err := c14CmdShapes(g); err != nil {
 		return err
 	}
 	g.Footer()
